@@ -47,7 +47,9 @@ def LockOut (tbl : Table) (fs : FlagMap) (inpW : Bytes) (δ : Nat) (K : Nat → 
        eoi = true ∧ ∃ d', c' + d' = c + δ ∧ K d' rs.1.x.sink rw.1.x.sink ∧ rw.1.x.sim = rs.1.x.sim ∧
          rs.1.x.prevConsumed = rw.1.x.prevConsumed + δ ∧
          (rs.1.c.isLast = false → BCore tbl fs inpW d' d' 0 rs.1 rw.1) ∧
-         (rs.1.c.isLast = true → d' = 0)
+         (rs.1.c.isLast = true → d' = 0) ∧
+         (0 < d' → Loc rs.1.x.sink rs.1.x.prevConsumed c rs.1.c.lastTextType) ∧
+         (rs.1.c.isLast = false → lexStart rs.1.r = 0)
    | some (.directive dr bm), some (.directive dr' bm') =>
        SigRel δ 0 (some (.directive dr bm)) (some (.directive dr' bm')) ∧
        ∃ ab'', MRel δ 0 0 ab'' .none rs.1 rw.1 ∧ K 0 rs.1.x.sink rw.1.x.sink ∧ ScanIdle rs.1.r
@@ -342,6 +344,19 @@ theorem chSeqOf_none_of_rel {δ d skip : Nat} {ab : Ab} {ms mw : M κ} (h : MRel
   · exact hr.elim
   · exact hr.elim
   · exact hr.2.2
+
+/-- with a text debt the machine is the lexer, whose consumed byte count is its lexeme start -/
+theorem consumed_lexStart {d skip : Nat} {ab : Ab} {sm : SeqMode} {ms mw : M κ} (h : MRel δ d skip ab sm ms mw) (hd : 0 < d) :
+    consumedByteCount inpS ms = lexStart ms.r := by
+  obtain ⟨_, hr, _, _⟩ := h
+  obtain ⟨cs, rs, xs⟩ := ms
+  obtain ⟨cw, rw, xw⟩ := mw
+  cases rs with
+  | lexer ls => rfl
+  | scanner ss =>
+    cases rw with
+    | lexer lw => exact hr.elim
+    | scanner sw => have := hr.1; omega
 
 /-- what a (non-last) break returns -/
 theorem break_facts (inp : Bytes) (m : M κ) (hl : m.c.isLast = false) {c : Nat}
